@@ -135,7 +135,7 @@ class Exec:
                 import asyncio
 
                 c = cid - INV_ID if cid in ex.inv_ids else 1000 + cid
-                ex.lines.append(dict(ev="call", c=c, p=_mw(power_w), run=ex.running))
+                ex.lines.append(dict(ev="call", c=c, p=_mw(power_w)))
                 o = ""
                 if ex.rnd.random() < ex.p_instant:
                     o = "ok" if ex.rnd.random() < 0.7 else "err"
@@ -144,6 +144,9 @@ class Exec:
                     ex.parked[c] = fut
                     try:
                         o = await fut
+                    except asyncio.CancelledError:  # cancelled by the manager at api_power_request_timeout
+                        ex.lines.append(dict(ev="reply", c=c, o="to"))
+                        raise
                     finally:
                         if ex.parked.get(c) is fut:
                             del ex.parked[c]
@@ -204,7 +207,7 @@ class Exec:
         async def spy_distribute_power(request):
             k = ex._rid(request)
             ex.running += 1
-            ex.lines.append(dict(ev="enter", k=k, p=_mw(request.power), run=ex.running, **ex._comp_now()))
+            ex.lines.append(dict(ev="enter", k=k, p=_mw(request.power), **ex._comp_now()))
             try:
                 return await orig_dp(request)
             finally:
@@ -247,6 +250,7 @@ class Exec:
                 self.chan_of[rr.get_channel_name()] = ("o" if op else "r", k)
                 self._inject(sub_s.send(rr))
         self.lines.clear()
+        self.lines.append(dict(ev="comp", lo=sys0["lo"], hi=sys0["hi"]))
 
     # -- plumbing ----------------------------------------------------------
     def _inject(self, coro) -> None:
@@ -319,7 +323,7 @@ class Exec:
     def _on_request(self, req) -> None:
         self.sent.append(req)
         foreign = frozenset(req.component_ids) != self.ids
-        self.lines.append(dict(ev="req", k=len(self.sent), p=_mw(req.power), foreign=foreign))
+        self.lines.append(dict(ev="req", k=len(self.sent), p=_mw(req.power), w=self.ow(req.power), foreign=foreign))
 
     def _on_report(self, key: str, rep) -> None:
         g, who = self.chan_of.get(key, ("?", 0))
@@ -399,6 +403,13 @@ class Exec:
         fut.set_result(o)
         return True
 
+    def timeout(self) -> None:
+        """api_power_request_timeout passes while calls are parked (nothing else is time-driven within 5.5 s
+        except the manager's 1 s drop timer, which finds nothing older than 60 s)."""
+        if any(not f.done() for f in self.parked.values()):
+            self.loop.advance(TIMEOUT_S + 0.5)
+            self.lines.append(dict(ev="idle"))
+
     def pump(self) -> None:
         if not self.loop.idle():
             self.loop.step()
@@ -429,11 +440,11 @@ def execute(env: _Env, case: dict, cfg: dict) -> dict:
     soc = cfg["Socs"][(case["id"] // 2) % len(cfg["Socs"])]
     p_instant = [0.0, 0.0, 0.35, 1.0][case["id"] % 4] if cfg.get("Instant", True) else 0.0
     h = case["h"]
-    if not h or h[0].get("a") != "bounds":
-        raise RuntimeError("a behaviour starts with the initial bounds")
+    if not h or h[0].get("a") != "init":
+        raise RuntimeError("a behaviour starts with the initial component bounds")
     ex = Exec(env, kind, cfg["Prio"], soc, h[0], rnd, p_instant)
     try:
-        for s in h:
+        for s in h[1:]:
             a = s["a"]
             if a == "bounds":
                 ex.bounds(s)
@@ -452,6 +463,8 @@ def execute(env: _Env, case: dict, cfg: dict) -> dict:
                     ex.pump()
             elif a in ("int", "result"):
                 ex.pump()
+            elif a == "timeout":
+                ex.timeout()
             elif a == "settle":
                 ex.settle()
             else:
@@ -460,3 +473,258 @@ def execute(env: _Env, case: dict, cfg: dict) -> dict:
         return dict(id=case["id"], kind=kind, soc=soc, p_instant=p_instant, h=h, lines=ex.lines)
     finally:
         ex.close()
+
+
+_CFG: dict = {}
+
+
+def _worker(chunk, out_path):
+    from .common import use_repo
+
+    use_repo()
+    import warnings
+
+    warnings.simplefilter("ignore")
+    env = _Env()
+    with open(out_path, "w") as f:
+        for c in chunk:
+            f.write(json.dumps(execute(env, c, _CFG), separators=(",", ":")) + "\n")
+
+
+# ---------------------------------------------------------------------------
+MC_INV = ["CurIsSentRequest", "SetpointsSumToRequestMinusExcess", "ResultsReferToSent", "LastSentIsTarget", "InForceWithinBounds", "ReqsAreSends",
+          "FinalCommandedIsTarget", "NotStuck", "PPTypeOK", "NoDeviationInModel", "SentIsSum", "SentInBounds", "NoOverlap", "PendingIsLatest"]
+EXTRA_DEFS = "NoOverlap == PD!NoOverlap\nPendingIsLatest == PD!PendingIsLatest"
+ACTIONS = ["bounds", "reg", "op", "comp", "reply", "timeout", "result", "int.recv", "int.enter", "int.call", "int.finish", "int.exit", "int.callback"]
+PROP = "X02"
+
+BAT_SYS = [S(-4, 4), S(-2, 2), S(-4, 2)]
+PV_SYS = [S(-4, 0), S(-2, 0)]
+BASE = dict(NA=2, G=4, Prio=[1, 2], MaxAge=1, MaxClock=2, XG=0, Fixed=True, NInv=NI, MaxReqs=24, Unit=1, Tol=0)
+ALPHA = dict(
+    bat=dict(SysAlpha=BAT_SYS, RegAlpha=[Q(1, 3), Q(1, -3), Q(2, NONE, -1, 2), Q(2, 1, -2, 4)], OpAlpha=[Q(1, -1), Q(1, 2), Q(2, NONE, 0, 1)]),
+    pv=dict(SysAlpha=PV_SYS, RegAlpha=[Q(1, -3), Q(1, -1), Q(2, NONE, -2, 0), Q(2, -4)], OpAlpha=[Q(1, -1), Q(1, 1), Q(2, NONE, -1, 0)]),
+)
+ALPHA_SMALL = dict(
+    bat=dict(SysAlpha=[S(-4, 4), S(-2, 2)], RegAlpha=[Q(1, 3), Q(1, -3), Q(2, NONE, -1, 2)], OpAlpha=[Q(1, -1), Q(1, 2)]),
+    pv=dict(SysAlpha=PV_SYS, RegAlpha=[Q(1, -3), Q(1, -1), Q(2, NONE, -2, 0)], OpAlpha=[Q(1, -1), Q(1, 1)]),
+)
+SOCS = [[50.0, 50.0], [40.0, 60.0], [70.0, 35.0]]
+
+SCOPES = {
+    "quick": dict(
+        mc=dict(kind="bat", alpha=ALPHA_SMALL, MaxProp=2, MaxComp=1, MaxTimeout=0, live=False),
+        hist=dict(alpha=ALPHA_SMALL, MaxProp=3, MaxComp=1, MaxTimeout=1, MaxDepth=13, limit=1600),
+        sim=dict(alpha=ALPHA, MaxProp=4, MaxComp=1, MaxTimeout=1, MaxDepth=60, num=1000),
+    ),
+    "thorough": dict(
+        mc=dict(kind="bat", alpha=ALPHA_SMALL, MaxProp=3, MaxComp=1, MaxTimeout=1, live=True),
+        hist=dict(alpha=ALPHA, MaxProp=3, MaxComp=1, MaxTimeout=1, MaxDepth=15, limit=40000),
+        sim=dict(alpha=ALPHA, MaxProp=4, MaxComp=2, MaxTimeout=2, MaxDepth=80, num=40000),
+    ),
+}
+
+
+def _printable(consts: dict) -> dict:
+    return {k: (f"{len(v)} symbols" if isinstance(v, list) and v and isinstance(v[0], dict) else v) for k, v in consts.items()}
+
+
+def _trace_consts() -> dict:
+    return dict(BASE, MaxClock=999, MaxDepth=0, SysAlpha=[], RegAlpha=[], OpAlpha=[], Mode="trace",
+                MaxProp=0, MaxComp=0, MaxTimeout=0, MaxReqs=9999, Unit=UNIT_MW, Tol=TOL_MW)
+
+
+def _design(rep: Report, sc: dict, work: Path) -> None:
+    """Design-level model checking of the composed specification, all interleavings (no history bound)."""
+    consts = dict(BASE, **sc["alpha"][sc["kind"]], MaxDepth=0, Mode="mc", MaxProp=sc["MaxProp"], MaxComp=sc["MaxComp"], MaxTimeout=sc["MaxTimeout"])
+    props = ["EventuallyQuiescent"] if sc["live"] else []
+    res = run_tlc("PowerPath", work / "mc", constants=consts, spec="PPFairSpec", view="PPView", invariants=MC_INV, properties=props,
+                  extra_defs=EXTRA_DEFS, timeout=6000, heap="6g")
+    rep.add_mc("mc", res, _printable(consts), MC_INV + props, mode="exhaustive, all interleavings" + (", liveness under weak fairness" if props else ""))
+    if not res.ok:
+        rep.fail(f"{PROP}.MC." + "/".join(res.violated), dict(stage="mc", constants=_printable(consts)), res.counterexample[:3000])
+
+
+def _witness(recs: list[dict]) -> dict:
+    """How often each clause's antecedent was exercised in the recorded executions (counting only)."""
+    w = dict(executions=0, requests=0, distributions=0, set_power_calls=0, results_received=0, partial_failures=0, resend_after_partial=0,
+             excess_nonzero=0, requests_coalesced=0, request_while_distribution_running=0, requests_after_bounds=0, both_targets=0,
+             timeouts=0, instant_replies=0, failed_calls=0, final_with_request=0, final_with_failed_power=0, final_with_excess=0,
+             bounds_consumed=0, comp_changes=0, odd_split=0)
+    for r in recs:
+        w["executions"] += 1
+        L = r["lines"]
+        running = 0
+        entered = set()
+        last_in = None  # what the manager consumed last: the handler that is running
+        rr = ro = NONE
+        lastres = None
+        for i, x in enumerate(L):
+            e = x["ev"]
+            if e in ("prop", "bounds", "got"):
+                last_in = e
+            if e == "req":
+                w["requests"] += 1
+                w["request_while_distribution_running"] += running > 0
+                w["requests_after_bounds"] += last_in == "bounds"
+                w["resend_after_partial"] += last_in == "got"
+            elif e == "rep":
+                if x["g"] == "r":
+                    rr = x["t"]
+                else:
+                    ro = x["t"]
+            elif e == "enter":
+                running += 1
+                entered.add(x["k"])
+                w["distributions"] += 1
+            elif e == "exit":
+                running -= 1
+            elif e == "call":
+                w["set_power_calls"] += 1
+                w["odd_split"] += x["p"] % 1000 != 0
+                w["instant_replies"] += i + 1 < len(L) and L[i + 1]["ev"] == "reply"
+            elif e == "reply":
+                w["failed_calls"] += x["o"] != "ok"
+                w["timeouts"] += x["o"] == "to"
+            elif e == "res":
+                lastres = x
+                w["partial_failures"] += x["type"] == "PartialFailure"
+                w["excess_nonzero"] += x["ex"] != 0
+            elif e == "got":
+                w["results_received"] += 1
+            elif e == "bounds":
+                w["bounds_consumed"] += 1
+            elif e == "comp":
+                w["comp_changes"] += i > 0
+            elif e == "final":
+                nreq = sum(1 for y in L if y["ev"] == "req")
+                w["requests_coalesced"] += nreq - len(entered)
+                w["final_with_request"] += nreq > 0
+                if lastres is not None:
+                    w["final_with_failed_power"] += lastres["fp"] != 0
+                    w["final_with_excess"] += lastres["ex"] != 0
+        w["both_targets"] += rr != NONE and ro != NONE
+    return w
+
+
+_MIN_WITNESS = ["requests", "distributions", "set_power_calls", "results_received", "partial_failures", "resend_after_partial", "excess_nonzero",
+                "requests_coalesced", "request_while_distribution_running", "requests_after_bounds", "both_targets", "failed_calls",
+                "final_with_request", "bounds_consumed", "comp_changes"]
+
+
+def _stage(rep: Report, name: str, kind: str, sc: dict, work: Path, simulate: bool) -> None:
+    """MC+GEN, RUN, VAL for one scope and one kind of pool."""
+    global _CFG
+    consts = dict(BASE, **sc["alpha"][kind], MaxDepth=sc["MaxDepth"], Mode="sim" if simulate else "history",
+                  MaxProp=sc["MaxProp"], MaxComp=sc["MaxComp"], MaxTimeout=sc["MaxTimeout"])
+    d = work / name
+    d.mkdir(parents=True, exist_ok=True)
+    cases_file = d / "cases.ndjson"
+    sim = f"num={max(1, sc['num'] // (2 * NCPU))}" if simulate else None
+    # (no -coverage: TLC's cost-model creation does not terminate on the nested operators of PowerManager.tla;
+    #  per-action counts are taken from the emitted behaviours instead)
+    res = run_tlc(
+        "PowerPath", d, constants=consts, init="PPInit", next_="PPNext", view="PPViewD", invariants=MC_INV + (["PPSimEmit"] if simulate else []),
+        env={"OUT_FILE": str(cases_file)}, simulate=sim, depth=(consts["MaxDepth"] + 2 if simulate else None),
+        seed=(SEED + 23 if simulate else None), extra_defs=EXTRA_DEFS, timeout=3000,
+    )
+    raw = read_emitted(cases_file)
+    acts = {a: 0 for a in ACTIONS}
+    for hh in raw:
+        for s in (hh[1:] if simulate else hh[-1:]):
+            acts[s["a"] + ("." + s["n"] if s["a"] == "int" else "")] += 1
+    res.coverage = acts
+    rep.add_mc(name, res, _printable(consts), MC_INV, mode=("simulate " + sim) if simulate else "exhaustive to the history bound, one behaviour per transition")
+    if not res.ok:
+        rep.fail(f"{PROP}.MC." + "/".join(res.violated), dict(stage=name, constants=_printable(consts)), res.counterexample[:3000])
+        return
+    for a in ACTIONS:
+        if not acts[a] and not (a == "timeout" and sc["MaxTimeout"] == 0):
+            raise RuntimeError(f"vacuity: action {a} never taken in {name} ({acts})")
+    raw.sort(key=lambda c: json.dumps(c, sort_keys=True))  # TLC's workers emit in a varying order
+    cases = [dict(id=i + 1, h=c) for i, c in enumerate(raw)]
+    total = len(cases)
+    if sc.get("limit"):
+        cases, cut = subsample(cases, sc["limit"])
+        if cut:
+            rep.exhaustive = False
+    _CFG = dict(Kinds=[kind], Socs=SOCS, Prio=BASE["Prio"], Instant=True)
+    tm = Timer()
+    shards = replay_parallel(_worker, cases, d)
+    t_run = tm.s()
+    fails, done, st = validate_shards(
+        "PowerPathTrace", shards, d, constants=_trace_consts(), invariants=["TraceInv"],
+        unconsumed_clause=f"{PROP}.TraceNotExplainedBySpec", dfs_queue=True,
+    )
+    rep.validated += done
+    recs = [r for p in shards for r in load_ndjson(p)]
+    byid = {r["id"]: r for r in recs}
+    wit = _witness(recs)
+    nfail = 0
+    for v in fails:
+        tr = byid.get(v["tid"])
+        nfail += 1
+        rep.fail(v["clause"], dict(stage=name, kind=kind, trace=tr, line=v.get("l")), v.get("detail"), deviations=v.get("deviations") or [])
+    if not nfail:  # vacuity guards are only meaningful when the clauses held
+        for k in _MIN_WITNESS:
+            if not wit[k]:
+                raise RuntimeError(f"vacuity: no recorded execution of stage {name} exercised '{k}' ({wit})")
+    rep.extra.setdefault("stages", []).append(dict(
+        stage=name, kind=kind, cases_emitted=total, cases_replayed=len(cases), traces_validated=done, val_states=st["states"],
+        transitions_per_action=acts, wall_s=dict(mc=res.wall_s, run=t_run, val=round(tm.s() - t_run, 2)),
+        clause_antecedents_exercised=wit,
+    ))
+    if recs and len(rep.samples) < 4:
+        rep.samples.append(recs[len(recs) // 2])
+
+
+def run(prop: str, tier: str) -> int:
+    tm = Timer()
+    rep = Report(prop, tier)
+    sc = SCOPES[tier]
+    work = scratch(f"{prop}_{tier}")
+    rep.assumptions = [
+        "one pool of two units (battery pool: two batteries with one inverter each, SoC mid-range, no exclusion bounds; PV pool: two inverters); "
+        "the manager's side uses integer W on a small grid, set-points are recorded as integer mW (tolerance 2 mW)",
+        "real PowerManagingActor, PowerDistributingActor, BatteryManager / PVManager, Matryoshka, channels; substituted from the harness: connection "
+        "manager + API client (set_power parks until resolved or answers at once), ComponentPoolStatusTracker (all components working; C16), "
+        "_data_pipeline.new_battery_pool / new_pv_pool (the bounds stream: the harness sends the component data first and the pool bounds afterwards)",
+        "recording Sender / Receiver / ChannelRegistry objects passed through the constructors log in program order and delegate",
+        "'reported at that time' = the report of each group that the same handler sends right after the Request (else the latest before it); "
+        "'bounds the pool streamed' = the latest SystemBounds the manager's bounds tracker had consumed",
+        "virtual time only moves for API timeouts (5 s each, at most 2 per execution): proposals do not expire (C11 covers expiry)",
+        "the distribution algorithms themselves are C01 / C02 / C15 / C17; the composed model only assumes set-points sum to the clamped request",
+    ]
+    _design(rep, sc["mc"], work)
+    for kind in ("bat", "pv"):
+        _stage(rep, f"hist_{kind}", kind, sc["hist"], work, simulate=False)
+        _stage(rep, f"sim_{kind}", kind, sc["sim"], work, simulate=True)
+    rep.exhaustive = False
+    return rep.finish(tm.s())
+
+
+def replay(prop: str, data: dict) -> int:
+    """./check X02 --replay <file>: re-run the recorded behaviour on the real actors and validate it again."""
+    from .common import use_repo
+
+    use_repo()
+    import warnings
+
+    warnings.simplefilter("ignore")
+    case = data.get("case") or {}
+    tr = case.get("trace")
+    if not tr:
+        print(json.dumps(data, indent=1)[:4000])
+        return 0
+    cfg = dict(Kinds=[tr["kind"]], Socs=[tr["soc"]], Prio=BASE["Prio"], Instant=True)
+    rec = execute(_Env(), dict(id=tr["id"], h=tr["h"]), cfg)
+    d = scratch(f"{prop}_replay")
+    p = d / "impl_0.ndjson"
+    p.write_text(json.dumps(rec, separators=(",", ":")) + "\n")
+    fails, _, _ = validate_shards("PowerPathTrace", [p], d, constants=_trace_consts(), invariants=["TraceInv"],
+                                  unconsumed_clause=f"{PROP}.TraceNotExplainedBySpec", dfs_queue=True)
+    for i, x in enumerate(rec["lines"], start=1):
+        print(i, json.dumps(x))
+    for v in fails:
+        print("FALSE", v["clause"], "line", v.get("l"), json.dumps(v.get("detail"))[:300], v.get("deviations") or "")
+    return 1 if fails else 0
